@@ -17,6 +17,7 @@ import (
 // "COMPACT:<K>" (position among the non-empty elements of K), "" unknown, "*" polymorphic constant.
 
 type m6 struct {
+	inCompactArray map[*ssa.Alloc]bool
 	c        *Ctx
 	fn       *ssa.Function
 	vl       int64
@@ -114,11 +115,17 @@ func (m *m6) base0(v ssa.Value) string {
 			return d
 		}
 	}
+	if d := m.compactArray(v); d != "" {
+		return d
+	}
 	if isArrayOfLen(v.Type(), m.vl) {
 		return "DOM"
 	}
 	switch x := v.(type) {
 	case *ssa.Slice:
+		if d := m.compactArray(x.X); d != "" {
+			return d
+		}
 		// make([]T, n) lowered to new [n]T + slice[:n]
 		if isArrayOfLen(x.X.Type(), m.vl) {
 			if hi, ok := core.ConstInt(x.High); ok && hi == 0 && x.High != nil {
@@ -748,4 +755,55 @@ func shortPath(v ssa.Value) string {
 		p = v.Name()
 	}
 	return p
+}
+
+// compactArray: a local array of domain size used as a scratch buffer that is filled from the front — every write
+// into it is indexed by one and the same compaction counter (0 at entry, +1 per element that is not skipped). Its
+// positions are then those of the compacted list, not domain points.
+func (m *m6) compactArray(v ssa.Value) string {
+	a, ok := v.(*ssa.Alloc)
+	if !ok || !isArrayOfLen(a.Type(), m.vl) {
+		return ""
+	}
+	if m.inCompactArray[a] {
+		return ""
+	}
+	if m.inCompactArray == nil {
+		m.inCompactArray = map[*ssa.Alloc]bool{}
+	}
+	m.inCompactArray[a] = true
+	defer delete(m.inCompactArray, a)
+	d, writes := "", 0
+	for _, r := range core.Refs(a) {
+		ia, isIA := r.(*ssa.IndexAddr)
+		if !isIA || ia.X != ssa.Value(a) {
+			continue
+		}
+		written := false
+		for _, u := range core.Refs(ia) {
+			switch x := u.(type) {
+			case *ssa.Store:
+				if x.Addr == ssa.Value(ia) {
+					written = true
+				}
+			case *ssa.Call:
+				if f := core.Callee(x.Common()); f != nil && f.Signature.Recv() != nil && len(x.Call.Args) > 0 && x.Call.Args[0] == ssa.Value(ia) && !gnarkObservers[f.Name()] {
+					written = true
+				}
+			}
+		}
+		if !written {
+			continue
+		}
+		writes++
+		di := m.index(ia.Index)
+		if !strings.HasPrefix(di, "COMPACT:") || (d != "" && d != di) {
+			return ""
+		}
+		d = di
+	}
+	if writes == 0 {
+		return ""
+	}
+	return d
 }
